@@ -181,6 +181,7 @@ def x2(prog: Program, chk: Check) -> None:
 
 
 def _same_enumerate(du: DefUse, nid: int, idx: ast.AST, val: ast.AST, src: str) -> bool:
+    val = _peel_conversions(val)
     if not (isinstance(idx, ast.Name) and isinstance(val, ast.Name)):
         return False
     di, dv = du.reaching(nid, idx.id), du.reaching(nid, val.id)
@@ -192,8 +193,24 @@ def _same_enumerate(du: DefUse, nid: int, idx: ast.AST, val: ast.AST, src: str) 
         ("idx", 0) in a.sel and ("idx", 1) in b.sel
 
 
+def _peel_conversions(e: ast.AST) -> ast.AST:
+    """x for np.array(x, ..) / np.asarray(x) / x.copy() / x.astype(..) / copy(x): the same values."""
+    from rules.valueflow import PRESERVING_FUNCS, PRESERVING_METHODS
+    while isinstance(e, ast.Call):
+        fn = (dotted(e.func) or "").split(".")[-1]
+        if isinstance(e.func, ast.Attribute) and dotted(e.func.value) not in ("np", "numpy") \
+                and e.func.attr in PRESERVING_METHODS:
+            e = e.func.value
+        elif fn in PRESERVING_FUNCS and e.args and fn not in ("diag", "diagonal"):
+            e = e.args[0]
+        else:
+            break
+    return e
+
+
 def _getter_call(du: DefUse, nid: int, val: ast.AST, getter: str) -> Optional[ast.Call]:
-    for _ in range(3):
+    for _ in range(5):
+        val = _peel_conversions(val)
         if isinstance(val, ast.Call) and method_call(val) and method_call(val)[1] == getter:
             return val
         if isinstance(val, ast.Name):
@@ -693,6 +710,17 @@ def x8(prog: Program, chk: Check) -> None:
                             f"(dt, transform_in, transform_out expected)")
 
 
+def x9(prog: Program, chk: Check) -> None:
+    chk.rule("X9", "export and import move tensors, they do not compute: what a setter of the "
+             "target process tensor receives is what the source's getter / stored list held, and "
+             "what the HDF5 helpers write into and read from the flat datasets is the tensor "
+             "itself - value-preserving conversions only (dtype / layout conversion, copy, "
+             "flatten / reshape); arithmetic on the way (a rescaling, a rounding, a cast of the "
+             "values) makes the copy differ from the original", floor=8)
+    from rules.valueflow import moves_keep_values
+    moves_keep_values(prog, chk, "X9")
+
+
 def run(prog: Program, chk: Check) -> None:
     chk.explanation = (
         "Decides the structural clauses of C16: writer/reader key-table agreement (X1), field "
@@ -712,3 +740,4 @@ def run(prog: Program, chk: Check) -> None:
     chk.call(x6, prog, chk)
     chk.call(x7, prog, chk)
     chk.call(x8, prog, chk)
+    chk.call(x9, prog, chk)
